@@ -23,9 +23,12 @@ PAIRS = ["RK45CK", "DOPRI45", "AHE", "RK87", "RK108", "RK1412", "LobattoIIIC4", 
 
 def scenarios(tier, seed):
     thorough = tier == "thorough"
-    meths = ["RK45CK", "DOPRI45", "AHE", "RK87", "LobattoIIIC4", "RadauIIA5", {"rich": "RK4", "levels": 3}, {"rich": "Midpoint", "levels": 4}]
+    # (a wrapper of an embedded PAIR: the pair keeps shortening steps on its own inside the wrapper, which must then extrapolate over the
+    # step actually taken - finding f32)
+    meths = ["RK45CK", "DOPRI45", "AHE", "RK87", "LobattoIIIC4", "RadauIIA5", {"rich": "RK4", "levels": 3}, {"rich": "Midpoint", "levels": 4},
+             {"rich": "RK45CK", "levels": 3}]
     if thorough:
-        meths += ["RK108", "RK1412", {"rich": "RK45CK", "levels": 2}, {"rich": "BackwardEuler", "levels": 3}]
+        meths += ["RK108", "RK1412", {"rich": "RK45CK", "levels": 2}, {"rich": "BackwardEuler", "levels": 3}, {"rich": "DOPRI45", "levels": 4}]
     scs = []
     n = 0
     for m in meths:
@@ -125,9 +128,9 @@ def check(run, replay=None):
             core.model_check("OdeSystemMC", "OdeSystem_devRecordStepTooShort", expect_violation="SegmentMonotone")
         scs = scenarios(run.tier, run.seed)
         gen_cases = run.generate("Accuracy")["cases"]
-        meths = ["RK45CK", "DOPRI45", "RK87", "LobattoIIIC4", "RadauIIA5", {"rich": "RK4", "levels": 3}]
+        meths = ["RK45CK", "DOPRI45", "RK87", "LobattoIIIC4", "RadauIIA5", {"rich": "RK4", "levels": 3}, {"rich": "RK45CK", "levels": 3}]
         if thorough:
-            meths += ["AHE", "RK108", "RK1412", {"rich": "Midpoint", "levels": 4}, {"rich": "RK45CK", "levels": 2}]
+            meths += ["AHE", "RK108", "RK1412", {"rich": "Midpoint", "levels": 4}, {"rich": "RK45CK", "levels": 2}, {"rich": "DOPRI45", "levels": 4}]
         jobs = []
         for c in gen_cases:
             for m in meths:
